@@ -41,8 +41,8 @@ func mainUnreadable(c *core.Ctx, R string) bool {
 		for _, b := range bodies {
 			for _, ci := range core.Calls(b.fn) {
 				g := ci.Common().StaticCallee()
-				if g == nil || fnPkgPath(g) != pMain || len(g.Blocks) == 0 || isBody[g] {
-					continue
+				if g == nil || fnPkgPath(g) != pMain || len(g.Blocks) == 0 || isBody[g] || g.Parent() != nil {
+					continue // (a function literal inside a body is part of that body as far as the rules go)
 				}
 				relevant := false
 				for _, prm := range g.Params {
